@@ -20,7 +20,7 @@ from sa import sx as sxm
 from sa.algebra import Rat
 from sa.match import SpecCtx
 from sa.srcmodel import strip_docstring, walk_no_nested
-from sa.sx import SX, N, Dyn, Ov, Bv, Outcome, CannotDecide, implies
+from sa.sx import abs_consequences, SX, N, Dyn, Ov, Bv, Outcome, CannotDecide, implies
 
 
 def _calls_apply_on(var, node):
@@ -288,7 +288,7 @@ def check_range(model, rep):
     done = [o for o in outs if o.kind in ('fall', 'return')]
     spec = SpecCtx(sx, 'DCMotor', env={'v': N(Rat.atom('v'))})
     gs = spec.guards('v <= 1 and v >= -1')
-    ok = bool(done) and all(all(implies(o.state.guards, g) for g in gs) for o in done)
+    ok = bool(done) and all(all(implies(abs_consequences(sx.ctx, o.state.guards), g) for g in gs) for o in done)
     rep.decide(ok, 'C14.range', 'DCMotor.pwm[setter]', 'the setter can store a duty cycle outside [-1, 1]', loc=st.loc)
     # IEEE clause of the same guard: every ordering comparison with NaN is false, so a guard written as
     # `raise if v > 1 or v < -1` lets NaN through where `raise unless -1 <= v <= 1` does not (the built-in
